@@ -21,7 +21,8 @@ RULE = ("case = (user numbers, current number, custom/default file names, no-dat
         "-append true|false, optional -file for DUMP and SELECTED_OUTPUT, one optional planned error of 6 kinds (parse, tidy, MIX, non-convergence, BASIC at punch "
         "time, no database); optional LoadDatabase(ok|missing file|bad string) steps between runs).  Non-trivial = in some call a stream has both sinks on and "
         "non-empty content, or the switch vector changes between two consecutive run steps; distinct by SHA-256 of the case.  Exhaustive leg: all 64 vectors "
-        "over {output,log,dump} x {file,string} x 4 fixed inputs (exhaustive_switch_vectors counts the vectors).")
+        "over {output,log,dump} x {file,string} x 4 fixed inputs (exhaustive_switch_vectors counts the vectors); the thorough tier also enumerates the three error "
+        "switches (2^9 vectors).")
 ASSUMPTIONS = ["std::getline semantics of a 'line': pieces between newlines, a trailing piece without newline counts when non-empty",
                "default file names phreeqc.<id>.out/.log/.err, dump.<id>.out, selected_<n>.<id>.out relative to the working directory; -file in DUMP/SELECTED_OUTPUT "
                "renames the destination from the block on and persists (IPhreeqc.hpp, observed)",
@@ -32,7 +33,7 @@ ASSUMPTIONS = ["std::getline semantics of a 'line': pieces between newlines, a t
                "planned errors are the only errors: a call whose return value disagrees with the plan is discarded"]
 FLOORS = {"quick": 300, "thorough": 3000}
 SHARDS = {"quick": 8, "thorough": 16}
-BUDGET = {"quick": 330, "thorough": 2400, "replay": 1}
+BUDGET = {"quick": 700, "thorough": 8000, "replay": 1}
 
 NUMS = [1, 2, 3, 10, 77]
 STREAMS = ["output", "log", "error", "dump", "so"]
@@ -272,11 +273,15 @@ POOL = [
 ]
 
 
-def enum_case(v, p):
-    """switch vector v (6 bits: of os lf ls df ds) on pool input p; the other switches vary deterministically"""
+def enum_case(v, p, e=None):
+    """switch vector v (6 bits: of os lf ls df ds) on pool input p; the other switches vary deterministically,
+    or (thorough tier) the error switches ef es eo are enumerated too (e = 3 bits)"""
     sw = {k: bool((v >> i) & 1) for i, k in enumerate(SWKEYS[:6])}
-    e = (v * len(POOL) + p) % 8
-    sw["ef"], sw["es"], sw["eo"] = bool(e & 1), bool(e & 2), e != 5
+    if e is None:
+        e = (v * len(POOL) + p) % 8
+        sw["ef"], sw["es"], sw["eo"] = bool(e & 1), bool(e & 2), e != 5
+    else:
+        sw["ef"], sw["es"], sw["eo"] = bool(e & 1), bool(e & 2), bool(e & 4)
     sw["ss"] = bool((v ^ (v >> 3)) & 1)
     sw["sf"] = {"1": bool((v >> 1) & 1), "2": bool((v >> 4) & 1), "3": bool(v & 1)}
     c = 63 - v
@@ -680,26 +685,29 @@ def check_case(case, ctx):
 
 
 def run(ctx):
-    # exhaustive leg: 64 core vectors x fixed pool, distributed over the shards
+    # exhaustive leg: 64 core vectors x fixed pool (thorough: x 8 error-switch vectors = all 2^9), distributed over the shards
     idx = 0
     for v in range(64):
         for p in range(len(POOL)):
-            idx += 1
-            if idx % ctx.nshards != ctx.shard:
-                continue
-            case = enum_case(v, p)
-            ctx.begin(case)
-            try:
-                r = check_case(case, ctx)
-                ctx.record(case, r["nontrivial"], r["classes"] + ["exhaustive_leg"])
-                if p == 0:
-                    ctx.extra["exhaustive_switch_vectors"] = ctx.extra.get("exhaustive_switch_vectors", 0) + 1
-                ctx.extra["exhaustive_cases"] = ctx.extra.get("exhaustive_cases", 0) + 1
-            except Violation as e:
-                if sum(1 for f in ctx.failures if f["test"] == "enum") < 3:      # (each recorded failure is replayed 3x by the driver)
-                    ctx.failures.append({"case": case, "oracle": e.oracle, "message": e.msg[:4000], "test": "enum"})
-            except Discard as e:
-                ctx.discard(e.why)
+            for e in ([None] if ctx.tier != "thorough" else list(range(8))):
+                idx += 1
+                if idx % ctx.nshards != ctx.shard:
+                    continue
+                case = enum_case(v, p, e)
+                ctx.begin(case)
+                try:
+                    r = check_case(case, ctx)
+                    ctx.record(case, r["nontrivial"], r["classes"] + ["exhaustive_leg"])
+                    if p == 0 and not e:
+                        ctx.extra["exhaustive_switch_vectors"] = ctx.extra.get("exhaustive_switch_vectors", 0) + 1
+                    if p == 0 and e is not None:
+                        ctx.extra["exhaustive_switch_vectors_with_error_switches"] = ctx.extra.get("exhaustive_switch_vectors_with_error_switches", 0) + 1
+                    ctx.extra["exhaustive_cases"] = ctx.extra.get("exhaustive_cases", 0) + 1
+                except Violation as ex:
+                    if sum(1 for f in ctx.failures if f["test"] == "enum") < 3:      # (each recorded failure is replayed 3x by the driver)
+                        ctx.failures.append({"case": case, "oracle": ex.oracle, "message": ex.msg[:4000], "test": "enum"})
+                except Discard as ex:
+                    ctx.discard(ex.why)
     ctx.hyp(case_strategy(), lambda c: check_case(c, ctx), BUDGET[ctx.tier], "seq")
 
 
